@@ -7,6 +7,7 @@ import (
 	"bufio"
 	"bytes"
 	"encoding/json"
+	"errors"
 	"math/rand"
 	"os"
 	"runtime"
@@ -86,15 +87,22 @@ func skipValueCompat(data []byte) (p int, err error) {
 }
 
 type parseObserver struct {
-	grown  rjson.Buffer // has been through a handler traversal of a document nested far beyond the limit
-	used   rjson.Buffer // reused across every input of this generator run
-	failed rjson.Buffer // re-dirtied by a failing nested document before each use
-	orig   []byte
-	noStd  bool   // skip the (slow) stdlib observations for very long inputs
-	arena  []byte // one input array, refilled for the "same array, different document" observations
+	grown   rjson.Buffer // has been through a handler traversal of a document nested far beyond the limit
+	used    rjson.Buffer // reused across every input of this generator run
+	failed  rjson.Buffer // re-dirtied by a failing nested document before each use
+	stopArr rjson.ArrayValueHandlerFunc
+	stopObj rjson.ObjectValueHandlerFunc
+	orig    []byte
+	noStd   bool   // skip the (slow) stdlib observations for very long inputs
+	arena   []byte // one input array, refilled for the "same array, different document" observations
 }
 
 var dirtyDoc = []byte(`[[[[{"a":[{"b":[1,`)
+var dirtyObjDoc = []byte(`{"a":[[{"b":{"c":[1,`)
+var stopDoc = []byte(`[1,[2,[3,"x"]],{"a":[4]}]`)
+var stopObjDoc = []byte(`{"a":1,"b":{"c":[2,{"d":"x"}]}}`)
+var errStop = errors.New("handler stops")
+var farArr = rjson.ArrayValueHandlerFunc(func(d []byte) (int, error) { return len(d) + 7, nil })
 var deepDoc = bytes.Repeat([]byte("["), 300)
 var tooDeepDoc = bytes.Repeat([]byte("["), 10001)
 var wayTooDeepDoc = append(bytes.Repeat([]byte("["), 10060), bytes.Repeat([]byte("]"), 10060)...)
@@ -109,6 +117,19 @@ func newParseObserver() *parseObserver {
 	// the handler machines have no depth limit: a traversal that declines every member leaves a stack
 	// longer than any skip function would ever grow
 	rjson.HandleArrayValues(wayTooDeepDoc, zeroArr, &po.grown)
+	// handlers that enter container members with the observer's after-failure Buffer and fail on the first string
+	po.stopArr = func(d []byte) (int, error) {
+		switch d[0] {
+		case '[':
+			return rjson.HandleArrayValues(d, po.stopArr, &po.failed)
+		case '{':
+			return rjson.HandleObjectValues(d, po.stopObj, &po.failed)
+		case '"':
+			return 0, errStop
+		}
+		return 0, nil
+	}
+	po.stopObj = func(k, d []byte) (int, error) { return po.stopArr(d) }
 	return po
 }
 
@@ -140,7 +161,18 @@ func (po *parseObserver) observe(data []byte, o []int) []int {
 	guard(func() { v[1] = rjson.Valid(data, &rjson.Buffer{}) })
 	guard(func() { v[2] = rjson.Valid(data, &po.used) })
 	guard(func() {
+		// every kind of failed call the Buffer may have been through: a malformed nested document in a skip
+		// function and in both traversals, a traversal stopped by its handler's error (at the top and inside a
+		// member the handler entered with the same Buffer), a handler offset out of range
+		// (a new Buffer each time, so that the history is exactly this one and a replay recreates it)
+		po.failed = rjson.Buffer{}
 		rjson.SkipValue(dirtyDoc, &po.failed)
+		rjson.SkipValueFast(dirtyDoc, &po.failed)
+		rjson.HandleArrayValues(dirtyDoc, zeroArr, &po.failed)
+		rjson.HandleObjectValues(dirtyObjDoc, zeroObj, &po.failed)
+		rjson.HandleArrayValues(stopDoc, po.stopArr, &po.failed)
+		rjson.HandleObjectValues(stopObjDoc, po.stopObj, &po.failed)
+		rjson.HandleArrayValues(stopDoc, farArr, &po.failed)
 		v[3] = rjson.Valid(data, &po.failed)
 	})
 	if !po.noStd {
